@@ -472,6 +472,7 @@ type Clause struct {
 	Label string // e.g. post.1, pre.2
 	Src   string
 	E     Expr
+	Triggers []Expr // optional instantiation pattern for a quantified axiom
 }
 
 type LoopSpec struct {
@@ -532,6 +533,7 @@ type FuncSpec struct {
 	Extern   bool   // function outside /repo; contract assumed
 	NoPanic  bool
 	NoOverflow bool
+	AbstractMod bool // remainders with a symbolic divisor are uninterpreted (with range facts)
 	OnErrorUnchanged []Expr
 	Carries  []*CarrySpec
 	FieldCover []*FieldCoverSpec
@@ -681,10 +683,25 @@ func parseContractFile(path, pkgPath string) (*SpecFile, error) {
 			}
 			sf.SpecFuncs = append(sf.SpecFuncs, s)
 		case "axiom":
+			// optional trigger:  axiom {dv(s, d); p10(s)} forall ...
+			var trig []Expr
+			if strings.HasPrefix(rest, "{") {
+				if j := strings.Index(rest, "}"); j > 0 {
+					for _, t := range strings.Split(rest[1:j], ";") {
+						te, err := ParseSpecExpr(strings.TrimSpace(t))
+						if err != nil {
+							return nil, fail(err)
+						}
+						trig = append(trig, te)
+					}
+					rest = strings.TrimSpace(rest[j+1:])
+				}
+			}
 			c, err := mkClause("axiom", len(sf.Axioms)+1, rest)
 			if err != nil {
 				return nil, fail(err)
 			}
+			c.Triggers = trig
 			sf.Axioms = append(sf.Axioms, c)
 		case "mode":
 			if cur != nil {
@@ -906,6 +923,10 @@ func parseContractFile(path, pkgPath string) (*SpecFile, error) {
 		case "nopanic":
 			if cur != nil {
 				cur.NoPanic = true
+			}
+		case "abstract_mod":
+			if cur != nil {
+				cur.AbstractMod = true
 			}
 		case "nooverflow":
 			if cur != nil {
